@@ -103,6 +103,12 @@ def dump_to_yaml(circuit, path: str, **kwargs) -> None:
     from ruamel.yaml import YAML
     yaml = YAML()
 
+    # values set via numpy arrays (e.g. `update_var` with one value per node) are numpy scalars
+    import numpy as np
+    yaml.representer.add_multi_representer(np.floating, lambda rep, val: rep.represent_float(float(val)))
+    yaml.representer.add_multi_representer(np.integer, lambda rep, val: rep.represent_int(int(val)))
+    yaml.representer.add_multi_representer(np.bool_, lambda rep, val: rep.represent_bool(bool(val)))
+
     from pyrates.utility import create_directory
     create_directory(path)
     from pathlib import Path
